@@ -1551,6 +1551,13 @@ M('C17', 'original defect: MultiSpeciesLattice inherits the attribute-wise loade
   "    def save_hdf5(self, hdf5_saver, h5gr, subpath):\n        \"\"\"Export `self` into a HDF5 file.\n\n        In addition to the data saved by :meth:`Lattice.save_hdf5`, it saves\n        :attr:`simple_lattice`, :attr:`N_species`, :attr:`species_names` and :attr:`simple_Lu`\n        under these names.\n        \"\"\"\n        super().save_hdf5(hdf5_saver, h5gr, subpath)\n        hdf5_saver.save(self.simple_lattice, subpath + 'simple_lattice')\n        hdf5_saver.save(self.N_species, subpath + 'N_species')\n        hdf5_saver.save(self.species_names, subpath + 'species_names')\n        hdf5_saver.save(self.simple_Lu, subpath + 'simple_Lu')\n\n    @classmethod\n    def from_hdf5(cls, hdf5_loader, h5gr, subpath):\n        \"\"\"Load instance from a HDF5 file; see :meth:`save_hdf5`.\"\"\"\n        obj = super().from_hdf5(hdf5_loader, h5gr, subpath)\n        obj.simple_lattice = hdf5_loader.load(subpath + 'simple_lattice')\n        obj.N_species = hdf5_loader.load(subpath + 'N_species')\n        obj.species_names = hdf5_loader.load(subpath + 'species_names')\n        obj.simple_Lu = hdf5_loader.load(subpath + 'simple_Lu')\n        return obj\n\n", '',
   'HDF5-inherited-loader')
 
+M('C17', 'original defect: HelicalLattice.from_hdf5 rebuilds through __init__ and drops position_disorder', 'tenpy/models/lattice.py',
+  "        if 'position_disorder' in h5gr:  # not derived in __init__\n            obj.position_disorder = hdf5_loader.load(subpath + 'position_disorder')\n        return obj\n", "        return obj\n",
+  'HDF5-restore')
+M('C17', 'twin: HelicalLattice.from_hdf5 reads position_disorder through a local key', 'tenpy/models/lattice.py',
+  "        if 'position_disorder' in h5gr:  # not derived in __init__\n            obj.position_disorder = hdf5_loader.load(subpath + 'position_disorder')\n", "        key = 'position_disorder'\n        if key in h5gr:\n            obj.position_disorder = hdf5_loader.load(subpath + key)\n",
+  None, expect='silent')
+
 M('C02', 'original defect: iswapaxes re-binds _qdata to an F-contiguous column selection', NPC,
   "        self._qdata = np.array(self._qdata[:, swap], order='C')  # (column selection is F-contiguous)", "        self._qdata = self._qdata[:, swap]",
   'QDATA-contiguous')
